@@ -81,6 +81,14 @@ type recorder struct {
 	cancelAt int
 	bd       *bitcoin_reader.BlockDownloader
 	ctx      context.Context
+	keep     *[]kept // sequence part: the store retains the list it is given, as the project's own mock store does
+}
+
+// kept is a block record held by a store that retains the slice it was handed.
+type kept struct {
+	hash  bitcoin.Hash32
+	given []bitcoin.Hash32 // as handed over (not copied)
+	copy  []bitcoin.Hash32 // its content at that moment
 }
 
 var errInjected = errors.New("injected fault")
@@ -138,6 +146,9 @@ func (r *recorder) FetchBlockTxIDs(ctx context.Context, h bitcoin.Hash32) ([]bit
 }
 func (r *recorder) AppendBlockTxIDs(ctx context.Context, h bitcoin.Hash32, ids []bitcoin.Hash32) error {
 	r.calls = append(r.calls, call{name: "AppendBlockTxIDs", hash: h, list: append([]bitcoin.Hash32{}, ids...)})
+	if r.keep != nil && r.failKind != "err-append" {
+		*r.keep = append(*r.keep, kept{hash: h, given: ids, copy: append([]bitcoin.Hash32{}, ids...)})
+	}
 	if r.failKind == "err-append" {
 		return errInjected
 	}
@@ -152,7 +163,10 @@ type verdict struct {
 const height = 777
 
 // runCase executes one case on a fresh downloader and applies the oracle.
-func runCase(c Case) verdict {
+func runCase(c Case) verdict { return runCaseKeeping(c, nil) }
+
+// runCaseKeeping is runCase with a store that retains the recorded lists in keep.
+func runCaseKeeping(c Case, keep *[]kept) verdict {
 	ctx := logger.ContextWithNoLogger(context.Background())
 	// what the header commits to
 	orig := make([]int, c.N)
@@ -168,7 +182,7 @@ func runCase(c Case) verdict {
 	// what is streamed
 	stream := append([]int{}, orig...)
 	announced := c.N
-	rec := &recorder{relevant: c.Relevant, ctx: ctx}
+	rec := &recorder{relevant: c.Relevant, ctx: ctx, keep: keep}
 	requested := *header.BlockHash()
 	switch c.Kind {
 	case "none":
@@ -530,6 +544,51 @@ func main() {
 	outcomes := map[string]int{}
 	var vs []mc.Violation
 	nontrivial := 0
+	// sequence part: downloads follow one another in one process. For every verified block A with
+	// relevant transactions, A is followed by every case B of up to 3 transactions with relevant
+	// ones (verified, refused, faulty, cancelled), each on a fresh downloader, with a store that
+	// retains the list it was handed (as the project's own in-memory store does); after every
+	// download every record made so far must still hold what was recorded, and every run must
+	// satisfy the single-case oracle.
+	pairs := 0
+	var seqA, seqB []Case
+	for _, c := range cases {
+		if c.N <= 3 && c.Relevant != 0 {
+			seqB = append(seqB, c)
+			if c.Kind == "none" {
+				seqA = append(seqA, c)
+			}
+		}
+	}
+seq:
+	for _, a := range seqA {
+		// one chain per A: A, B1, B2, ... in one process without forgetting anything in between, so
+		// that state carried from download to download (of any depth) has every chance to show
+		var keep []kept
+		chain := append([]Case{a}, seqB...)
+		for i, c := range chain {
+			if r := runCaseKeeping(c, &keep); r.violation != nil {
+				r.violation.Detail = fmt.Sprintf("as download %d of the sequence starting with [%s]: %s", i+1, a.String(), r.violation.Detail)
+				r.violation.Fingerprint = "sequence|" + r.violation.Fingerprint
+				vs = append(vs, *r.violation)
+				break seq
+			}
+			pairs++
+			for _, k := range keep {
+				same := len(k.given) == len(k.copy)
+				for i := 0; same && i < len(k.copy); i++ {
+					same = k.given[i] == k.copy[i]
+				}
+				if !same {
+					vs = append(vs, mc.Violation{Prop: "C04", Clause: "record-changed-by-later-download", Fingerprint: "record-changed-by-later-download",
+						Detail:  fmt.Sprintf("the relevant txids recorded for verified block %s changed after the later download [%s] (download %d of the sequence starting with [%s]): recorded %v, now %v", k.hash, c.String(), i+1, a.String(), k.copy, k.given),
+						History: chain[:i+1]})
+					break seq
+				}
+			}
+		}
+	}
+	outcomes["sequence-downloads-records-intact"] = pairs
 	for i, r := range results {
 		if r.violation != nil {
 			vs = append(vs, *r.violation)
@@ -557,7 +616,7 @@ func main() {
 		Coverage: map[string]any{
 			"evaluations":         len(cases),
 			"distinct_nontrivial": nontrivial,
-			"rule":                "complete Cartesian enumeration: block size n x relevant subset x {no corruption; drop/duplicate/alter/insert-foreign tx at every position; copy of the last 2 or 4 transactions appended (announcing the streamed and the original count); swap of every adjacent pair; stream cut after every k; announced count +-1; header not the requested one; header with wrong merkle root; error returned by ProcessTx at every call, by ProcessCoinbaseTx, by ConfirmTx at every relevant position, by AppendBlockTxIDs; Cancel issued from inside every ProcessTx call}. Each case is one execution of the real HandleBlock on a fresh BlockDownloader. All cases are distinct by construction; non-trivial = has a corruption or fault (kind != none)",
+			"rule":                "complete Cartesian enumeration: block size n x relevant subset x {no corruption; drop/duplicate/alter/insert-foreign tx at every position; copy of the last 2 or 4 transactions appended (announcing the streamed and the original count); swap of every adjacent pair; stream cut after every k; announced count +-1; header not the requested one; header with wrong merkle root; error returned by ProcessTx at every call, by ProcessCoinbaseTx, by ConfirmTx at every relevant position, by AppendBlockTxIDs; Cancel issued from inside every ProcessTx call}. Each case is one execution of the real HandleBlock on a fresh BlockDownloader; plus the sequence part: every verified block with relevant transactions followed, in one process, by every case of up to 3 transactions with relevant ones, with a store that retains the list it is handed - after every download every record made so far must be unchanged. All cases are distinct by construction; non-trivial = has a corruption or fault (kind != none)",
 			"exhaustive":          true,
 			"outcomes":            outcomes,
 			"samples":             samples,
